@@ -28,8 +28,32 @@ json descToJson(const VATA::Util::AutDescription& d)
 	return res;
 }
 
+// hook for the variant that loads into a forked alphabet; the generic version does nothing
+template <class Aut> void prepareAlphabet(Aut&, bool) { }
+template <class Aut> void shareAlphabet(Aut&, Aut&) { }
+template <> void shareAlphabet<TA>(TA& y, TA& x) { y.SetAlphabet(x.GetAlphabet()); }
+TA::AlphabetType g_forked;
+template <> void prepareAlphabet<TA>(TA& aut, bool forked)
+{
+	if (!forked) { return; }
+	if (!g_forked)
+	{	// an alphabet that already holds a few symbols (through a load), then COPIED: the copy is what the automata use
+		std::shared_ptr<TA::OnTheFlyAlphabet> orig(new TA::OnTheFlyAlphabet);
+		TA seed;
+		TA::AlphabetType origPtr(orig);
+		seed.SetAlphabet(origPtr);
+		VATA::Parsing::TimbukParser parser;
+		AutBase::StateDict dict;
+		seed.LoadFromString(parser, "Ops zz0:0 zz2:2 zz1:1\nAutomaton S\nStates s\nFinal States s\nTransitions\nzz0 -> s\nzz2(s,s) -> s\nzz1(s) -> s\n", dict);
+		g_forked = TA::AlphabetType(new TA::OnTheFlyAlphabet(*orig));
+	}
+	// every case forks again from the current state of the forked alphabet (a copy of a copy that has grown meanwhile)
+	g_forked = TA::AlphabetType(new TA::OnTheFlyAlphabet(*std::dynamic_pointer_cast<TA::OnTheFlyAlphabet>(g_forked)));
+	aut.SetAlphabet(g_forked);
+}
+
 template <class Aut>
-json roundTrip(const std::string& text, const char* stage)
+json roundTrip(const std::string& text, const char* stage, bool forked = false)
 {
 	json res;
 	try
@@ -39,6 +63,7 @@ json roundTrip(const std::string& text, const char* stage)
 		SetStage((std::string(stage) + ":load").c_str());
 		AutBase::StateDict dict;
 		Aut x;
+		prepareAlphabet(x, forked);
 		x.LoadFromString(parser, text, dict);
 		SetStage((std::string(stage) + ":dump").c_str());
 		std::string t1 = x.DumpToString(ser, dict);
@@ -46,6 +71,7 @@ json roundTrip(const std::string& text, const char* stage)
 		res["d1"] = descToJson(parser.ParseString(t1));
 		SetStage((std::string(stage) + ":reload").c_str());
 		Aut y;
+		if (forked) { shareAlphabet(y, x); }
 		y.LoadFromString(parser, t1, dict);
 		std::string t2 = y.DumpToString(ser, dict);
 		res["d2"] = descToJson(parser.ParseString(t2));
@@ -68,8 +94,23 @@ VDRIVE_OP(timbuk)
 		try
 		{
 			VATA::Parsing::TimbukParser parser;
-			p["desc"] = descToJson(parser.ParseString(text));
+			VATA::Util::AutDescription d = parser.ParseString(text);
+			p["desc"] = descToJson(d);
 			p["outcome"] = "ok";
+			if (c.at("mode") == "rt")
+			{	// the serialiser on the parsed description, parsed again
+				json rs;
+				SetStage("serialise+parse");
+				try
+				{
+					VATA::Serialization::TimbukSerializer ser;
+					rs["desc"] = descToJson(parser.ParseString(ser.Serialize(d)));
+					rs["outcome"] = "ok";
+				}
+				catch (const std::exception& e) { rs["outcome"] = "std:" + ExcName(e); }
+				catch (...) { rs["outcome"] = "nonstd"; }
+				p["reser"] = rs;
+			}
 		}
 		catch (const std::exception& e) { p["outcome"] = "std:" + ExcName(e); }
 		catch (...) { p["outcome"] = "nonstd"; }
@@ -80,6 +121,7 @@ VDRIVE_OP(timbuk)
 	enc["bu"] = roundTrip<VATA::BDDBottomUpTreeAut>(text, "bu");
 	enc["td"] = roundTrip<VATA::BDDTopDownTreeAut>(text, "td");
 	enc["fa"] = roundTrip<FA>(text, "fa");
+	if (c.value("forked", false)) { enc["explf"] = roundTrip<TA>(text, "explf", true); }
 	res["enc"] = enc;
 	return res;
 }
